@@ -41,7 +41,7 @@ except FileNotFoundError:
 m = {"version": 1,
      "setup_cmd": "cd /verif/harness && GOFLAGS=-mod=mod GOPROXY=off GOSUMDB=off GOTOOLCHAIN=local go build -tags verif ./... && mkdir -p /verif/.work/bin /verif/evidence /verif/replays",
      "hooks": {"guard": "verif", "enable": "go build -tags verif (./check builds every worker/server binary from /repo's working tree with this tag)",
-               "baseline_off_cmd": base["cmd"], "source_commits": ["b557b65", "50c1a6d", "3a885aa", "3f34f81", "c2580ad", "869f121"], "add_only": True},
+               "baseline_off_cmd": base["cmd"], "source_commits": ["b557b65", "50c1a6d", "3a885aa", "3f34f81", "c2580ad", "869f121", "d302176"], "add_only": True},
      "engines": [{"name": "rgverif", "path": "/verif/harness", "serves_properties": sorted(C),
                   "kind_free_text": "Go harness: independent RESP codec, executable reference model, seeded generators, in-process differential runner, supervisors with per-batch child processes and journals, known-findings matcher, evidence writer"}],
      "checks": [C[k] for k in sorted(C)],
